@@ -1,8 +1,9 @@
 //! component `fs` (C18): whole operation histories against the real `s3s_fs::FileSystem`
 //! through the `s3s::S3` trait, in a fresh directory under /verif/work per history.
 //!
-//! One case line = one history. Input fields: one field per operation (syntax below);
-//! output fields: `env.<dirlen>` followed by one canonical response per operation.
+//! One case line = one history. Input fields: `clean|wild` then one field per operation (syntax below);
+//! output fields: `env.<dirlen>` followed by one canonical response per operation. A ranged `get` of a plain key
+//! is repeated through `S3Service::call`; its response gets `:H<status>:<content-range>:<content-length>:<body>` appended.
 //!
 //! Operation syntax (`:`-separated; W = identity `a`|`b`|`-`; B,K = hex bucket/key; opt = `-` | `+hex`):
 //!   mb:W:B  rb:W:B  hb:W:B  loc:W:B  lb:W
@@ -15,6 +16,7 @@
 //!                          PL = `-` | `+`n,…  (an item `x` = missing part number)
 use s3s::auth::Credentials;
 use s3s::dto::*;
+use s3s::service::{S3Service, S3ServiceBuilder};
 use s3s::{S3, S3Error, S3Request};
 use s3s_fs::FileSystem;
 use s3vh::{Rng, component_main, hex, list_hex, un_list_hex, unhex};
@@ -145,6 +147,7 @@ struct Gen<'a> {
     f_dup: bool,
     f_huge: bool,
     f_mpabuse: bool,
+    f_mp: bool,
 }
 
 const POOL: [&str; 10] = ["a", "ab", "b", "c.txt", "d/e", "d/f", "d/g/h", "x/y/z", "k-1", "é/ü"];
@@ -572,6 +575,16 @@ impl Gen<'_> {
         let (i, u) = self.upload()?;
         let (w, b, k) = self.upload_ctx(i);
         let mut n: i32 = self.rng.range(1, 4) as i32;
+        if let Some(i) = i {
+            // mostly the next part in sequence, so that complete requests can succeed
+            if self.rng.chance(7, 10) {
+                let mut next = 1;
+                while self.sim.ups[i].parts.contains_key(&next) {
+                    next += 1;
+                }
+                n = next.min(3);
+            }
+        }
         if self.rng.chance(1, 30) {
             n = 10001;
         }
@@ -707,6 +720,10 @@ impl Gen<'_> {
                 pl = format!("+{}", run.iter().map(|(n, _)| n.to_string()).collect::<Vec<_>>().join(","));
             }
         }
+        if !self.clean {
+            // whatever the store says, the real backend may create the file (e.g. for an empty part list)
+            self.sim.maybe.insert(dst.clone());
+        }
         if let Some(i) = i {
             if self.sim.ups[i].alive && self.sim.ups[i].owner == w {
                 // the real backend consumes the upload id whatever happens next
@@ -729,7 +746,10 @@ impl Gen<'_> {
 
     fn step(&mut self) {
         for _ in 0..20 {
-            let r = self.rng.below(100);
+            let mut r = self.rng.below(100);
+            if self.f_mp && self.rng.chance(1, 3) {
+                r = self.rng.range(79, 99);
+            }
             let op = match r {
                 0..=20 => self.op_put(),
                 21..=36 => self.op_get(),
@@ -825,7 +845,8 @@ fn gen_history(rng: &mut Rng, clean: bool, big: bool, maxops: u64) -> Vec<String
     let f_dup = rng.chance(1, 5);
     let f_huge = rng.chance(1, 12);
     let f_mpabuse = rng.chance(1, 2);
-    let mut g = Gen { rng, clean, big, buckets, keys, sim: Sim::default(), ops: Vec::new(), seedc: 0, f_head, f_dup, f_huge, f_mpabuse };
+    let f_mp = rng.chance(1, 3);
+    let mut g = Gen { rng, clean, big, buckets, keys, sim: Sim::default(), ops: Vec::new(), seedc: 0, f_head, f_dup, f_huge, f_mpabuse, f_mp };
     // most histories start by creating buckets
     for b in g.buckets.clone() {
         if g.rng.chance(4, 5) {
@@ -951,7 +972,65 @@ fn parse_range(r: &str) -> Option<Range> {
     Some(Range::Int { first: a.parse().expect("first"), last: if z.is_empty() { None } else { Some(z.parse().expect("last")) } })
 }
 
-async fn run_op(fs: &FileSystem, ups: &mut Uploads, op: &str) -> String {
+/// keys for which ranged reads are repeated through the HTTP layer: plain path segments only
+fn plain_key(k: &str) -> bool {
+    !k.is_empty() && k.split('/').all(|s| !s.is_empty() && s != "." && s != "..")
+}
+
+fn pct(s: &str) -> String {
+    let mut out = String::new();
+    for &b in s.as_bytes() {
+        if b.is_ascii_alphanumeric() || b == b'-' || b == b'.' || b == b'_' || b == b'~' || b == b'/' {
+            out.push(b as char);
+        } else {
+            out.push_str(&format!("%{b:02X}"));
+        }
+    }
+    out
+}
+
+/// the same ranged read through `S3Service::call`: status line, Content-Range, Content-Length, body
+async fn http_get(svc: &S3Service, bucket: &str, key: &str, range: &str) -> String {
+    let header = if let Some(n) = range.strip_prefix('s') { format!("bytes=-{n}") } else { format!("bytes={}", &range[1..]) };
+    let req = http::Request::builder()
+        .method(http::Method::GET)
+        .uri(format!("http://localhost/{}/{}", bucket, pct(key)))
+        .header("host", "localhost")
+        .header("range", header)
+        .body(s3s::Body::empty())
+        .expect("request");
+    match svc.call(req).await {
+        Err(_) => "H!".to_owned(),
+        Ok(resp) => {
+            let status = resp.status().as_u16();
+            let hv = |name: &str| resp.headers().get(name).and_then(|v| v.to_str().ok()).map(str::to_owned);
+            let cr = hv("content-range");
+            let cl = hv("content-length");
+            let mut body = resp.into_body();
+            let mut data: Vec<u8> = Vec::new();
+            let mut bad = false;
+            while let Some(x) = body.next().await {
+                match x {
+                    Ok(b) => data.extend_from_slice(&b),
+                    Err(_) => {
+                        bad = true;
+                        break;
+                    }
+                }
+            }
+            if status >= 300 {
+                // error document: only the status is compared
+                format!("H{status}")
+            } else if bad {
+                format!("H{status}:!")
+            } else {
+                format!("H{status}:{}:{}:{}.{:016x}", opt_hs(cr.as_deref()), cl.unwrap_or_else(|| "-".to_owned()), data.len(), fnv64(&data))
+            }
+        }
+    }
+}
+
+async fn run_op(fs: &FileSystem, svc: &S3Service, ups: &mut Uploads, op: &str) -> String {
     let a: Vec<&str> = op.split(':').collect();
     let w = a[1];
     match a[0] {
@@ -1038,6 +1117,8 @@ async fn run_op(fs: &FileSystem, ups: &mut Uploads, op: &str) -> String {
             b.set_key(un_hs(a[3]));
             b.set_range(parse_range(a[4]));
             b.set_checksum_mode(Some(ChecksumMode::from_static(ChecksumMode::ENABLED)));
+            let via_http = a[4] != "-" && plain_key(&un_hs(a[3])) && !a[4].starts_with("s18446744073709551615");
+            let http_part = if via_http { format!(":{}", http_get(svc, &un_hs(a[2]), &un_hs(a[3]), a[4]).await) } else { String::new() };
             match fs.get_object(req(b.build().unwrap(), w)).await {
                 Ok(r) => {
                     let o = r.output;
@@ -1059,7 +1140,7 @@ async fn run_op(fs: &FileSystem, ups: &mut Uploads, op: &str) -> String {
                         }
                     };
                     format!(
-                        "ok:{body}:{}:{}:{}:{}:{}:{}:{}:{}",
+                        "ok:{body}:{}:{}:{}:{}:{}:{}:{}:{}{http_part}",
                         opt_int(o.content_length),
                         opt_hs(o.content_range.as_deref()),
                         opt_hs(o.e_tag.as_deref()),
@@ -1070,7 +1151,7 @@ async fn run_op(fs: &FileSystem, ups: &mut Uploads, op: &str) -> String {
                         opt_hs(o.checksum_sha256.as_deref())
                     )
                 }
-                Err(e) => err_code(&e),
+                Err(e) => format!("{}{http_part}", err_code(&e)),
             }
         }
         "head" => {
@@ -1289,13 +1370,15 @@ fn evaluate(f: &[&str]) -> Vec<String> {
 
     let rt = tokio::runtime::Builder::new_current_thread().enable_all().build().expect("runtime");
     let fs = FileSystem::new(&dir).expect("FileSystem::new");
+    let svc = S3ServiceBuilder::new(FileSystem::new(&dir).expect("FileSystem::new")).build();
     let mut ups = Uploads { real: Vec::new() };
     let mut out = vec![format!("env.{dirlen}")];
     for op in &f[1..] {
-        let res = std::panic::catch_unwind(AssertUnwindSafe(|| rt.block_on(run_op(&fs, &mut ups, op))));
+        let res = std::panic::catch_unwind(AssertUnwindSafe(|| rt.block_on(run_op(&fs, &svc, &mut ups, op))));
         out.push(res.unwrap_or_else(|_| "PANIC".to_owned()));
     }
     drop(fs);
+    drop(svc);
     let _ = std::fs::remove_dir_all(&dir);
     let _ = std::fs::remove_dir(&base);
     out
